@@ -248,6 +248,11 @@ def allDicts : List Val → Option (List (List (String × Val)))
 
 def Val.df (cols : List (String × List Val)) : Val := .node "df" (cols.map (·.1)) (cols.map fun c => Val.list c.2)
 
+/-- pandas' own check: all columns have one length (NOT: as many entries as there are rows) -/
+def sameLen : List (String × List Val) → Bool
+  | [] => true
+  | c :: cs => cs.all fun d => d.2.length == c.2.length
+
 /-- `InputsToDataframe._on_run`: first row creates the columns, later rows append by key; pandas
 refuses columns of unequal length -/
 def dfBuild (rows : List Val) : Option Val :=
@@ -257,7 +262,7 @@ def dfBuild (rows : List Val) : Option Val :=
   | some (r0 :: rest) =>
     match appendRows (r0.map fun kv => (kv.1, [kv.2])) rest with
     | none => none
-    | some cols => if cols.all (fun c => c.2.length == rest.length + 1) then some (Val.df cols) else none
+    | some cols => if sameLen cols then some (Val.df cols) else none
 
 inductive XfKind where
   | toList | toDict | toDf
@@ -370,6 +375,10 @@ factory of every input still holding `NOT_DATA`) -/
 def dcNode (fs : List Field) : Node :=
   { ins := fs.map fun f => (f.name, match f.dflt with | .none => .nd | .value v => v | .factory v => v),
     outs := [("dataclass", .nd)] }
+
+/-- the class-level preview of a dataclass node: a `default_factory` shows up only on instances -/
+def dcPreview (fs : List Field) : Panel :=
+  fs.map fun f => (f.name, match f.dflt with | .value v => v | _ => .nd)
 
 def Val.dc (ins : Panel) : Val := .node "dc" (labels ins) (values ins)
 
